@@ -21,10 +21,11 @@ Inductive case :=
 (* multiapp.Open(new dir, fileSize, prealloc, metadata, options); ops; observed outputs *)
 | CMulti (fs : N) (prealloc : bool) (meta : bytes) (o : oopts) (ops : list op) (outs : list out).
 
-(* SWITCH: false = the models of the code as it is (Single.v, Multi.v); true = the models of the code
-   with fixes/C17-rewind-truncates.diff applied (Fixed.v).  Flip it in the same step as the fix commit
-   (and replace Properties/C17.v by Properties/C17Fixed.v, known_findings: known -> fixed). *)
-Definition use_fixed_models : bool := false.
+(* SWITCH: true = the models of the code since /repo commit 09014a8 "appendables drop the bytes and chunk
+   files behind a rewound offset" (App/Fixed.v: SetOffset truncates / removes the later chunk files; all
+   other operations are those of Single.v / Multi.v).  false = the models of the code before that commit
+   (kept for the "before 09014a8" refutations of Properties/C17.v). *)
+Definition use_fixed_models : bool := true.
 
 Definition case_ok (c : case) : bool :=
   match c with
